@@ -260,6 +260,39 @@ func runRFaultCase(c *Case, env *Env) *Result {
 		return res
 	}
 	R := free.reads
+	// ---- faults during Load itself: every read of the load, every error kind,
+	// persistent and one-shot: Load must report the error (it is a read call like
+	// any other), never panic, never hand out a segment as if nothing had happened
+	if rc.Sample == 0 {
+		probe := NewSimReaderAt(ws.Bytes, nil)
+		if _, err := ice.Load(NewDataReaderAt(probe, len(ws.Bytes))); err == nil {
+			loadReads := probe.Calls()
+			for j := 0; j < loadReads; j++ {
+				for k := 0; k < NumReadFaultKinds; k++ {
+					for _, count := range []int{0, 1} {
+						ra := NewSimReaderAt(ws.Bytes, nil)
+						ra.SetFault(&ReadFault{From: j, Count: count, Kind: k})
+						var seg segment.Segment
+						var lerr error
+						pi := Guard(func() { seg, lerr = ice.Load(NewDataReaderAt(ra, len(ws.Bytes))) })
+						res.SubRuns++
+						res.fault("during-load-"+ReadFaultNames[k], 1, 1)
+						label := fmt.Sprintf("storage fails (%s, count %d) at read %d of the %d reads of Load", ReadFaultNames[k], count, j, loadReads)
+						if pi != nil {
+							res.Fail = &Fail{Prop: "C19", Oracle: "read-fault", Kind: "panic", Site: pi.Site, Detail: label + ": Load panicked: " + pi.Msg}
+							return res
+						}
+						if lerr == nil && ra.FiredCount() > 0 {
+							_ = seg
+							res.Fail = &Fail{Prop: "C19", Oracle: "read-fault", Kind: "silent-success", Site: "Load", Detail: label + ": Load returned a segment and no error"}
+							return res
+						}
+					}
+				}
+			}
+			res.probeN("load-reads-enumerated", loadReads)
+		}
+	}
 	kinds := map[int]bool{}
 	for _, op := range rc.Prog {
 		kinds[op.Kind] = true
